@@ -292,3 +292,25 @@ Section D.
       + split; [exact Ttl | lia].
   Qed.
 End D.
+
+Section T.
+  Variable md5 : bytes -> bytes.
+  Variable rx : N -> bytes -> option (list (Z * Z)).
+  Variable cfg : config.
+  Variable fs : N -> bool.
+
+  (* C13: a server's reply is passed on only if its TTL (looked up after the server's rewriteIn) is not exceeded *)
+  Theorem reply_ttl_alive st s buf now rnd c p :
+    In (OReply c p) (snd (replyh md5 rx cfg fs st s buf now rnd)) ->
+    (exists h r, slot_of st s (nth 1 buf 0) = Some h /\ get_rq st h = Some r /\ rq_replybuf r = Some p) \/
+    exists h r msg a1 ttlres a2,
+      slot_of st s (nth 1 buf 0) = Some h /\ get_rq st h = Some r /\
+      buf2radmsg md5 buf (sc_secret (srvconf_of cfg s)) (match rq_msg r with Some m => Some (m_auth m) | None => None end) = Some msg /\
+      dorewrite rx (m_attrs msg) (sc_rwin (srvconf_of cfg s)) = Some a1 /\
+      checkttl (o_ttl0 (cf_opt cfg)) (o_ttl1 (cf_opt cfg)) a1 = (ttlres, a2) /\ ttlres <> 0.
+  Proof.
+    intro H. destruct (replyh_delivered md5 rx cfg fs _ _ _ _ _ _ _ H) as [(h & r & Hs & Hr & _ & Hb) | D].
+    - left. exists h, r. repeat split; assumption.
+    - right. destruct D. exists dl_h, dl_r, dl_msg, dl_a1, dl_ttlres, dl_a2. destruct dl_ttl as [T1 T2]. repeat split; assumption.
+  Qed.
+End T.
